@@ -1,900 +1,53 @@
-import Tcell.Lemmas.DrawDefs
+import Tcell.Lemmas.DrawCorner
 namespace Tcell
 open Buf
 
-/-! ### GetContent under the width invariant -/
-
-theorem getContent_wok {rw : Rune → Int} (hrw : RwOk rw) (b : Buf) (x y : Int) (hr : b.inRange x y)
-    (hw : WOk rw (b.cells x y)) :
-    b.getContent x y = (obsMain rw (b.cells x y).currMain, (b.cells x y).currComb, (b.cells x y).currStyle,
-                        obsWidth rw (b.cells x y).currMain) := by
-  simp only [getContent, if_pos hr, obsMain, obsWidth]
-  rcases hw with hw | ⟨hw, hm⟩
-  · rw [hw]; split <;> rfl
-  · rw [hw, hm, hrw.space]; simp
-
-theorem obsWidth_pos {rw : Rune → Int} (hrw : RwOk rw) (m : Rune) : 1 ≤ obsWidth rw m ∧ obsWidth rw m ≤ 2 := by
-  unfold obsWidth
-  have := hrw.nonneg m; have := hrw.le2 m
-  split <;> omega
-
-theorem obsMain_markClean {rw : Rune → Int} (hrw : RwOk rw) (m : Rune) :
-    obsMain rw (if m = 0 then 32 else m) = obsMain rw m ∧ obsWidth rw (if m = 0 then 32 else m) = obsWidth rw m := by
-  by_cases h : m = 0
-  · subst h; simp [obsMain, obsWidth, hrw.zero, hrw.space]
-  · simp [h]
-
-/-! ### the abstract terminal: closed form of printing a glyph -/
-
-namespace ATerm
-
-@[simp] theorem set_w (t : ATerm) (x y c) : (t.set x y c).w = t.w := rfl
-@[simp] theorem set_h (t : ATerm) (x y c) : (t.set x y c).h = t.h := rfl
-theorem set_grid (t : ATerm) (x y c i j) : (t.set x y c).grid i j = if i = x ∧ j = y then c else t.grid i j := rfl
-
-theorem putAt_grid (t : ATerm) (x y : Int) (bytes : List Nat) (width : Int) (st : Style) (i j : Int) :
-    (t.putAt x y bytes width st).grid i j =
-      if i = x + 1 ∧ j = y ∧ width > 1 then .cont
-      else if i = x ∧ j = y then .shown bytes (decide (width > 1)) st
-      else if i = x + 2 ∧ j = y ∧ width > 1 ∧ t.grid (x + 2) y = .cont then .garbage
-      else if i = x + 1 ∧ j = y ∧ width ≤ 1 ∧ t.grid (x + 1) y = .cont then .garbage
-      else if i = x - 1 ∧ j = y ∧ t.grid x y = .cont then .garbage
-      else t.grid i j := by
-  unfold putAt
-  by_cases hw : width > 1
-  · have hw' : ¬ width ≤ 1 := by omega
-    simp only [hw, hw', false_and, true_and, if_true, if_false, and_true, decide_true]
-    by_cases h1 : t.grid x y = .cont <;> by_cases h3 : t.grid (x + 2) y = .cont <;>
-      simp only [h1, h3, if_true, if_false, set_grid, and_true, and_false] <;>
-      (repeat' split) <;> first | rfl | (exfalso; omega)
-  · have hw' : width ≤ 1 := by omega
-    simp only [hw, hw', false_and, true_and, if_false, and_false, decide_false]
-    by_cases h1 : t.grid x y = .cont <;> by_cases h2 : t.grid (x + 1) y = .cont <;>
-      simp only [h1, h2, if_true, if_false, set_grid, and_true, and_false] <;>
-      (repeat' split) <;> first | rfl | (exfalso; omega)
-
-@[simp] theorem putAt_w (t : ATerm) (x y b w st) : (t.putAt x y b w st).w = t.w := by
-  unfold putAt; simp only; (repeat' split) <;> rfl
-@[simp] theorem putAt_h (t : ATerm) (x y b w st) : (t.putAt x y b w st).h = t.h := by
-  unfold putAt; simp only; (repeat' split) <;> rfl
-@[simp] theorem putAt_cur (t : ATerm) (x y b w st) : (t.putAt x y b w st).cur = some (x + w, y) := rfl
-@[simp] theorem putAt_pen (t : ATerm) (x y b w st) : (t.putAt x y b w st).pen = t.pen := by
-  unfold putAt; simp only; (repeat' split) <;> rfl
-@[simp] theorem putAt_chaos (t : ATerm) (x y b w st) : (t.putAt x y b w st).chaos = t.chaos := by
-  unfold putAt; simp only; (repeat' split) <;> rfl
-@[simp] theorem putAt_visible (t : ATerm) (x y b w st) : (t.putAt x y b w st).visible = t.visible := by
-  unfold putAt; simp only; (repeat' split) <;> rfl
-@[simp] theorem putAt_shape (t : ATerm) (x y b w st) : (t.putAt x y b w st).shape = t.shape := by
-  unfold putAt; simp only; (repeat' split) <;> rfl
-@[simp] theorem putAt_writes (t : ATerm) (x y b w st) : (t.putAt x y b w st).writes = (x, y) :: t.writes := rfl
-theorem putAt_covered (t : ATerm) (x y b w st) : (t.putAt x y b w st).covered =
-    if w > 1 then (x + 1, y) :: (x, y) :: t.covered else (x, y) :: t.covered := rfl
-
-end ATerm
-end Tcell
-
-namespace Tcell
-open Buf
-
-/-! ### explicit form of drawCell on a dirty cell -/
-
-theorem Scr.drawCellPlain_clean (c : DrawCfg) (s : Scr) (x y : Int) (hd : s.cells.dirty x y = false) :
-    s.drawCellPlain c x y = (s, [], s.retWidth c x y) := by
-  simp [Scr.drawCellPlain, hd]
-
-@[simp] theorem Scr.cellTextG_false (c : DrawCfg) (w x : Int) (m : Rune) (comb : List Rune) (width : Int) :
-    Scr.cellTextG c w x m comb width false = Scr.cellText c w x m comb width := by
-  simp [Scr.cellTextG]
-
-/-- the text of a dirty cell at (x,y): `cellTextG` of what GetContent reports, narrowed when the guard is compiled in and
-the next column is locked -/
-def Scr.txAt (c : DrawCfg) (s : Scr) (x y : Int) : List Nat × Int :=
-  Scr.cellTextG c s.w x (s.cells.getContent x y).1 (s.cells.getContent x y).2.1 (s.cells.getContent x y).2.2.2
-    (c.guardLocked && s.cells.locked (x + 1) y)
-
-theorem Scr.drawCellPlain_dirty (c : DrawCfg) (s : Scr) (x y : Int) (hd : s.cells.dirty x y = true) :
-    s.drawCellPlain c x y =
-      ({ s with curstyle := resolveStyle s.style (s.cells.getContent x y).2.2.1,
-                cx := if (s.txAt c x y).2 > 1 then -1 else x + (s.txAt c x y).2,
-                cy := y, cells := s.cells.setDirty x y false },
-       (if s.cy ≠ y ∨ s.cx ≠ x then [Cmd.goto x y] else []) ++
-         ((if resolveStyle s.style (s.cells.getContent x y).2.2.1 ≠ s.curstyle
-            then [Cmd.setPen (resolveStyle s.style (s.cells.getContent x y).2.2.1)] else []) ++
-          [Cmd.put (s.txAt c x y).1 (s.txAt c x y).2]),
-       (s.txAt c x y).2) := by
-  simp only [Scr.drawCellPlain, hd, not_true_eq_false, if_false, Scr.paint, resolveStyle, Scr.txAt]
-  by_cases hgo : s.cy ≠ y ∨ s.cx ≠ x
-  · simp only [hgo, if_true]; rfl
-  · have hx : s.cx = x := by
-      by_cases h : s.cx = x
-      · exact h
-      · exact absurd (Or.inr h) hgo
-    have hy : s.cy = y := by
-      by_cases h : s.cy = y
-      · exact h
-      · exact absurd (Or.inl h) hgo
-    simp only [hgo, if_false, List.nil_append]
-    cases s; simp_all
-
-end Tcell
-
-namespace Tcell
-open Buf
-
-theorem cellText_width {c : DrawCfg} (hrw : RwOk c.rw) (w x : Int) (m : Rune) (comb : List Rune) :
-    let tx := Scr.cellText c w x (obsMain c.rw m) comb (obsWidth c.rw m)
-    (tx.2 = 1 ∨ tx.2 = 2) := by
-  have h := obsWidth_pos hrw m
-  simp only [Scr.cellText]
-  have h1 : ¬ obsWidth c.rw m < 1 := by omega
-  simp only [h1, if_false]
-  split
-  · left; rfl
-  · simp only; omega
-
-theorem isDirty_true_unlocked (c : Cell) (h : c.isDirty = true) : c.lock = false := by
-  cases hl : c.lock
-  · rfl
-  · simp [Cell.isDirty, hl] at h
-
-theorem wok_markClean {rw : Rune → Int} (hrw : RwOk rw) (c : Cell) (h : WOk rw c) : WOk rw c.markClean := by
-  simp only [WOk, Cell.markClean_width, Cell.markClean_currMain] at h ⊢
-  by_cases hz : c.currMain = 0
-  · simp only [hz, if_true, and_true]
-    rcases h with h1 | h1
-    · right; rw [h1, hz, hrw.zero]
-    · exact absurd h1.2 (by rw [hz]; decide)
-  · simpa [hz] using h
-
-theorem wok_markDirty {rw : Rune → Int} (c : Cell) (h : WOk rw c) : WOk rw c.markDirty := by
-  simpa [WOk] using h
-
-@[simp] theorem Cell.markClean_currStyle (c : Cell) : c.markClean.currStyle = c.currStyle := rfl
-@[simp] theorem Cell.markClean_currComb (c : Cell) : c.markClean.currComb = c.currComb := rfl
-@[simp] theorem Cell.markClean_lastComb (c : Cell) : c.markClean.lastComb = c.currComb := rfl
-@[simp] theorem Cell.markClean_lastStyle (c : Cell) : c.markClean.lastStyle = c.currStyle := rfl
-@[simp] theorem Cell.markClean_lastMain (c : Cell) : c.markClean.lastMain = if c.currMain = 0 then 32 else c.currMain := rfl
-@[simp] theorem Cell.markDirty_lastComb (c : Cell) : c.markDirty.lastComb = c.lastComb := rfl
-@[simp] theorem Cell.markDirty_lastStyle (c : Cell) : c.markDirty.lastStyle = c.lastStyle := rfl
-
-/-- GetContent does not see the normalisation done by SetDirty(false) nor the dirty marker -/
-theorem getContent_setDirty {rw : Rune → Int} (hrw : RwOk rw) (b : Buf) (x y : Int) (v : Bool)
-    (hw : ∀ i j, WOk rw (b.cells i j)) (i j : Int) :
-    (b.setDirty x y v).getContent i j = b.getContent i j := by
-  have hr : (b.setDirty x y v).inRange i j ↔ b.inRange i j := by simp [inRange_iff]
-  by_cases hij : b.inRange i j
-  · rw [getContent_wok hrw b i j hij (hw i j)]
-    have hw' : WOk rw ((b.setDirty x y v).cells i j) := by
-      cases v
-      · rw [setDirty_false_cells]; split
-        · exact wok_markClean hrw _ (hw i j)
-        · exact hw i j
-      · rw [setDirty_true_cells]; split
-        · exact wok_markDirty _ (hw i j)
-        · exact hw i j
-    rw [getContent_wok hrw _ i j (hr.2 hij) hw']
-    cases v
-    · rw [setDirty_false_cells]; split
-      · have := obsMain_markClean hrw (b.cells i j).currMain
-        simp [this.1, this.2]
-      · rfl
-    · rw [setDirty_true_cells]; split <;> simp
-  · have : ¬ (b.setDirty x y v).inRange i j := fun h => hij (hr.1 h)
-    simp [getContent, hij, this]
-
-end Tcell
-
-namespace Tcell
-open Buf
-
-theorem shown_wide_ne {b1 b2 : List Nat} {s1 s2 : Style} : ACell.shown b1 false s1 ≠ ACell.shown b2 true s2 := by
-  intro h; injection h with _ h2 _; exact absurd h2 (by decide)
-
-/-! ### the guard-aware cell text -/
-
-theorem cellTextG_width {c : DrawCfg} (hrw : RwOk c.rw) (w x : Int) (m : Rune) (comb : List Rune) (nl : Bool) :
-    let tx := Scr.cellTextG c w x (obsMain c.rw m) comb (obsWidth c.rw m) nl
-    (tx.2 = 1 ∨ tx.2 = 2) := by
-  simp only [Scr.cellTextG]
-  split
-  · left; rfl
-  · exact cellText_width hrw w x m comb
-
-theorem cellTextG_true_width (c : DrawCfg) (w x : Int) (m : Rune) (comb : List Rune) (width : Int) :
-    (Scr.cellTextG c w x m comb width true).2 = 1 := by
-  unfold Scr.cellTextG
-  split
-  · rfl
-  · rename_i h
-    have hw : ¬ width > 1 := fun h' => h ⟨rfl, h'⟩
-    have e : (if width < 1 then 1 else width) = 1 := by split <;> omega
-    simp only [Scr.cellText, e]
-    split <;> rfl
-
-theorem cellTextG_narrow (c : DrawCfg) (w x : Int) (m : Rune) (comb : List Rune) (width : Int) (nl : Bool)
-    (hw : width ≤ 1) : (Scr.cellTextG c w x m comb width nl).2 = 1 := by
-  unfold Scr.cellTextG
-  split
-  · rfl
-  · have e : (if width < 1 then 1 else width) = 1 := by split <;> omega
-    simp only [Scr.cellText, e]
-    split <;> rfl
-
-theorem cellTextG_of_not (c : DrawCfg) (w x : Int) (m : Rune) (comb : List Rune) (width : Int) (nl : Bool)
-    (h : ¬ (nl = true ∧ width > 1)) : Scr.cellTextG c w x m comb width nl = Scr.cellText c w x m comb width := by
-  unfold Scr.cellTextG; rw [if_neg h]
-
-theorem cellTextG_of_guard (c : DrawCfg) (w x : Int) (m : Rune) (comb : List Rune) (width : Int) (nl : Bool)
-    (h : nl = true ∧ width > 1) : Scr.cellTextG c w x m comb width nl = ([32], 1) := by
-  unfold Scr.cellTextG; rw [if_pos h]
-
-@[simp] theorem shownOfG_false (c : DrawCfg) (w x : Int) (m : Rune) (comb : List Rune) (st : Style) :
-    shownOfG c w x m comb st false = shownOf c w x m comb st := by
-  simp [shownOfG, shownOf]
-
-/-- a rune GetContent reports as one column wide is never shown as a two-column glyph -/
-theorem shownOfG_narrow (c : DrawCfg) (w x : Int) (m : Rune) (comb : List Rune) (st : Style) (nl : Bool)
-    (h : obsWidth c.rw m ≤ 1) (b : List Nat) (st' : Style) : shownOfG c w x m comb st nl ≠ .shown b true st' := by
-  intro h'
-  simp only [shownOfG, cellTextG_narrow c w x _ comb _ nl h] at h'
-  injection h' with _ h2 _
-  simp at h2
-
-/-- the guarded blank is not a two-column glyph either -/
-theorem shownOfG_guard (c : DrawCfg) (w x : Int) (m : Rune) (comb : List Rune) (st : Style)
-    (h : obsWidth c.rw m > 1) : shownOfG c w x m comb st true = .shown [32] false st := by
-  simp only [shownOfG, cellTextG_of_guard c w x _ comb _ true ⟨rfl, h⟩]
-  simp
-
-theorem dirty_unlocked (b : Buf) (x y : Int) (hd : b.dirty x y = true) : b.locked x y = false := by
-  simp only [dirty] at hd
-  simp only [Buf.locked]
-  split at hd
-  · rename_i hr; rw [if_pos hr]; exact isDirty_true_unlocked _ hd
-  · exact absurd hd (by simp)
-
-theorem locked_true_iff (b : Buf) (x y : Int) : b.locked x y = true ↔ (b.inRange x y ∧ (b.cells x y).lock = true) := by
-  simp only [Buf.locked]
-  split
-  · rename_i h; simp [h]
-  · rename_i h; simp [h]
-
-/-- `locked` only reads the dimensions and the lock flags -/
-theorem locked_congr (b b' : Buf) (hw : b'.w = b.w) (hh : b'.h = b.h) (hl : ∀ i j, (b'.cells i j).lock = (b.cells i j).lock)
-    (i j : Int) : b'.locked i j = b.locked i j := by
-  simp only [Buf.locked, inRange_iff, hw, hh, hl]
-
-theorem BlankOk.congr {b b' : Buf} {i j : Int} (h : BlankOk b i j) (hw : (b'.cells i j).width = (b.cells i j).width)
-    (hl : b'.locked (i + 1) j = b.locked (i + 1) j) (hg : b'.getContent i j = b.getContent i j) : BlankOk b' i j := by
-  unfold BlankOk at h ⊢
-  rw [hw, hl, hg]; exact h
-
-/-- a clean cell returns the loop's step -/
-theorem retWidth_eq_stepW {c : DrawCfg} (hct : c.Plain) (s : Scr) (x y : Int) (hd : s.cells.dirty x y = false) :
-    s.retWidth c x y = stepW c s.cells x y := by
-  unfold Scr.retWidth stepW
-  cases hw : c.walkGuard
-  · simp [hd]
-  · have := hct.wg hw; simp [this]
-
-theorem retWidth_cases (c : DrawCfg) (s : Scr) (x y : Int) :
-    s.retWidth c x y = (s.cells.getContent x y).2.2.2 ∨ (s.retWidth c x y = 1 ∧ s.cells.locked (x + 1) y = true) := by
-  unfold Scr.retWidth; split
-  · rename_i h; right; exact ⟨rfl, h.2.2⟩
-  · left; rfl
-
-/-- the clean branch of one loop iteration -/
-theorem visit_clean {c : DrawCfg} (hrw : RwOk c.rw) (hct : c.Plain) {d : Option Style} {s : Scr} {t : ATerm} {x y : Int}
-    (inv : PassInv c d s t x y) (hr : s.cells.inRange x y) (hd : s.cells.dirty x y = false) :
-    VisitPost c d s t x y (s.visit c x y).1 (t.applyAll (s.visit c x y).2.1) (s.visit c x y).2.2 := by
-  have hgc := getContent_wok hrw s.cells x y hr (inv.wok x y)
-  have hdc : s.drawCell c x y = (s, [], s.retWidth c x y) := by simp [Scr.drawCell, hd]
-  have hwpos := obsWidth_pos hrw (s.cells.cells x y).currMain
-  have hgw : (s.cells.getContent x y).2.2.2 = obsWidth c.rw (s.cells.cells x y).currMain := by rw [hgc]
-  have hstep := retWidth_eq_stepW hct s x y hd
-  have hret := retWidth_cases c s x y
-  generalize hrv : s.retWidth c x y = rv at hdc hstep hret
-  have hrv1 : 1 ≤ rv := by rcases hret with h | h <;> omega
-  -- if the cell is unlocked it is clean with last = curr
-  have hclean : (s.cells.cells x y).lock = false →
-      (s.cells.cells x y).lastMain ≠ 0 ∧ (s.cells.cells x y).last = (s.cells.cells x y).content := by
-    intro hl
-    have : (s.cells.cells x y).isDirty = false := by simpa [dirty, hr] using hd
-    exact (Cell.isDirty_false_iff _ hl).1 this
-  by_cases hwide : rv > 1 ∧ x + 1 < s.w
-  · -- wide and not in the last column: the right neighbour is marked dirty
-    have hw2 : rv = 2 := by rcases hret with h | h <;> omega
-    have hv : s.visit c x y = ({ s with cells := s.cells.setDirty (x + 1) y true }, [], rv) := by
-      simp only [Scr.visit, hdc, hwide, and_self, if_true]
-    rw [hv]
-    have hr1 : s.cells.inRange (x + 1) y := by
-      have := inv.cw; simp only [inRange_iff] at hr ⊢; omega
-    have hcells : ∀ i j, (s.cells.setDirty (x + 1) y true).cells i j =
-        if i = x + 1 ∧ j = y then (s.cells.cells i j).markDirty else s.cells.cells i j := by
-      intro i j; rw [setDirty_true_cells]; simp [hr1]
-    have hir : ∀ i j, (s.cells.setDirty (x + 1) y true).inRange i j ↔ s.cells.inRange i j := by
-      intro i j; simp [inRange_iff]
-    have hgcs : ∀ i j, (s.cells.setDirty (x + 1) y true).getContent i j = s.cells.getContent i j :=
-      getContent_setDirty hrw s.cells (x + 1) y true inv.wok
-    have hlk : ∀ i j, (s.cells.setDirty (x + 1) y true).locked i j = s.cells.locked i j := by
-      intro i j; apply locked_congr _ _ (by simp) (by simp)
-      intro i' j'; rw [hcells]; split <;> simp
-    refine { inv := ?_, wd_pos := hrv1, wd_eq := Or.inl hstep, gc_same := hgcs, lock_same := ?_, other_same := ?_,
-             done := ?_, w_same := rfl, h_same := rfl, style_same := rfl, cursor_same := ⟨rfl, rfl, rfl, rfl⟩,
-             flags_same := ⟨rfl, rfl⟩, writes := by simp [ATerm.applyAll, hd], vis_same := ⟨rfl, rfl⟩,
-             covers := ⟨[], by simp [ATerm.applyAll], by intro _ p hp; simp at hp⟩ }
-    · refine { tw := inv.tw, th := inv.th, cw := ?_, ch := ?_, wok := ?_, valid := ?_, g1 := ?_, g2 := ?_, wf := ?_,
-               g3 := ?_, kcur := ?_, kpen := inv.kpen, q := ?_, dcompat := inv.dcompat }
-      · simpa using inv.cw
-      · simpa using inv.ch
-      · intro i j; simp only [hcells]; split
-        · exact wok_markDirty _ (inv.wok i j)
-        · exact inv.wok i j
-      · refine ⟨inv.valid.1, ?_⟩
-        intro i j; simp only [hcells]; split
-        · simpa using inv.valid.2 i j
-        · exact inv.valid.2 i j
-      · intro i j hrij hl hm
-        simp only [hcells] at hl hm ⊢
-        simp only [ATerm.applyAll, List.foldl_nil]
-        split at hm
-        · simp at hm
-        · rename_i hne; rw [if_neg hne] at hl ⊢
-          obtain ⟨st', nl, a1, a2, a3, a4⟩ := inv.g1 i j ((hir i j).1 hrij) hl hm
-          refine ⟨st', nl, a1, a2, a3, fun h1 h2 => ⟨(a4 h1 h2).1, (a4 h1 h2).2.congr ?_ (hlk _ _) (hgcs _ _)⟩⟩
-          rw [hcells, if_neg hne]
-      · intro i j hrij hcont
-        simp only [hcells, ATerm.applyAll, List.foldl_nil] at hcont ⊢
-        split
-        · right; simp
-        · exact inv.g2 i j ((hir i j).1 hrij) hcont
-      · intro i j hrij hcont
-        exact inv.wf i j ((hir i j).1 hrij) hcont
-      · intro i j hrij hl hm b st hsh hlt
-        simp only [hcells] at hl hm
-        simp only [ATerm.applyAll, List.foldl_nil] at hsh ⊢
-        split at hm
-        · simp at hm
-        · rename_i hne; rw [if_neg hne] at hl; exact inv.g3 i j ((hir i j).1 hrij) hl hm b st hsh hlt
-      · intro hcr; exact inv.kcur ((hir _ _).1 hcr)
-      · intro h1 h2 _ hl hm
-        -- the cell left of x + wd is x + 1 (just marked dirty) since wd = 2
-        simp only [hw2, hcells] at hl hm ⊢
-        have : x + 2 - 1 = x + 1 := by omega
-        rw [this] at hm; simp at hm
-    · intro i j; simp only [hcells]; split <;> simp
-    · intro i j hne; simp only [hcells]
-      simp only [hw2] at hne
-      have : ¬ (i = x + 1 ∧ j = y) := by omega
-      rw [if_neg this]
-    · intro hl
-      have hne : ¬ (x = x + 1 ∧ y = y) := by omega
-      rw [hcells, if_neg hne]; exact hclean hl
-  · have hv : s.visit c x y = (s, [], rv) := by
-      simp only [Scr.visit, hdc, hwide, if_false]
-    rw [hv]
-    refine { inv := ?_, wd_pos := hrv1, wd_eq := Or.inl hstep, gc_same := fun _ _ => rfl, lock_same := fun _ _ => rfl,
-             other_same := fun _ _ _ => rfl, done := hclean, w_same := rfl, h_same := rfl, style_same := rfl,
-             cursor_same := ⟨rfl, rfl, rfl, rfl⟩, flags_same := ⟨rfl, rfl⟩, writes := by simp [ATerm.applyAll, hd],
-             vis_same := ⟨rfl, rfl⟩, covers := ⟨[], by simp [ATerm.applyAll], by intro _ p hp; simp at hp⟩ }
-    refine { toSyncInv := inv.toSyncInv, kcur := inv.kcur, kpen := inv.kpen, q := ?_, dcompat := inv.dcompat }
-    intro h1 h2 hlx hl hm b st hsh
-    simp only [ATerm.applyAll, List.foldl_nil] at hsh
-    simp only at h1 h2 hlx hl hm hsh
-    by_cases hw1 : rv = 1
-    · -- one column: the cell left of x+1 is x itself
-      have e : x + rv - 1 = x := by omega
-      rw [e] at hl hm hsh
-      rw [hw1] at hlx
-      rcases hret with hg | hg
-      · -- narrow rune: if unlocked it is clean with last = curr, of width 1
-        have hc := hclean hl
-        have hlm : (s.cells.cells x y).lastMain = (s.cells.cells x y).currMain := by
-          have := hc.2; simp only [Cell.last, Cell.content] at this; injection this
-        obtain ⟨st', nl, a1, _⟩ := inv.g1 x y hr hl hm
-        rw [a1, hlm] at hsh
-        exact shownOfG_narrow c s.w x _ _ st' nl (by omega) b st hsh
-      · -- a wide rune counted as one column: its right neighbour is locked, but the visit position is not
-        have := ((locked_true_iff _ _ _).1 hg.2).2
-        rw [this] at hlx; exact absurd hlx (by decide)
-    · -- wide in the last column: x + wd ≥ w, nothing to show
-      exfalso; rcases hret with h | h <;> omega
-
-end Tcell
-
-namespace Tcell
-open Buf
-
-theorem resolveStyle_valid (dflt st : Style) (h1 : dflt.attrs ≠ attrInvalid) (h2 : st.attrs ≠ attrInvalid) :
-    resolveStyle dflt st ≠ styleInvalid := by
-  unfold resolveStyle styleInvalid
-  split
-  · intro h; apply h1; rw [h]
-  · intro h; apply h2; rw [h]
-
-/-- the dirty branch of one loop iteration (no bottom-right corner trick; locked-neighbour guard compiled in or not) -/
-theorem visit_dirty {c : DrawCfg} (hrw : RwOk c.rw) (hct : c.Plain) {d : Option Style} {s : Scr} {t : ATerm}
-    {x y : Int} (inv : PassInv c d s t x y) (hr : s.cells.inRange x y) (hd : s.cells.dirty x y = true) :
-    VisitPost c d s t x y (s.visit c x y).1 (t.applyAll (s.visit c x y).2.1) (s.visit c x y).2.2 := by
-  have hgc := getContent_wok hrw s.cells x y hr (inv.wok x y)
-  have hdc : s.drawCell c x y = s.drawCellPlain c x y := by simp [Scr.drawCell, hd, hct.ct]
-  have hlock : (s.cells.cells x y).lock = false := by
-    apply isDirty_true_unlocked; simpa [dirty, hr] using hd
-  have hcw := inv.cw; have hch := inv.ch; have htw := inv.tw; have hth := inv.th
-  have hxy : 0 ≤ x ∧ x < s.w ∧ 0 ≤ y ∧ y < s.h := by simp only [inRange_iff] at hr; omega
-  have hwokxy : (s.cells.cells x y).width = c.rw (s.cells.cells x y).currMain ∨
-      ((s.cells.cells x y).width = 0 ∧ (s.cells.cells x y).currMain = 32) := inv.wok x y
-  -- abbreviations
-  generalize hnlb : (c.guardLocked && s.cells.locked (x + 1) y) = nlb
-  generalize hcwd : (s.cells.cells x y).width = cwd at hwokxy
-  generalize hcm : (s.cells.cells x y).currMain = cm at *
-  generalize hcomb : (s.cells.cells x y).currComb = comb at *
-  generalize hcst : (s.cells.cells x y).currStyle = cst at *
-  have htxw := cellTextG_width hrw s.w x cm comb nlb
-  -- the loop's step, computed before the text is abbreviated
-  have hwdeq : (Scr.cellTextG c s.w x (obsMain c.rw cm) comb (obsWidth c.rw cm) nlb).2 = stepW c s.cells x y ∨
-      (x + (Scr.cellTextG c s.w x (obsMain c.rw cm) comb (obsWidth c.rw cm) nlb).2 ≥ s.w ∧ x + stepW c s.cells x y ≥ s.w) := by
-    have hp := obsWidth_pos hrw cm
-    unfold stepW; rw [hgc]; simp only [hd, or_true, and_true]
-    by_cases hg : c.guardLocked = true ∧ obsWidth c.rw cm > 1 ∧ s.cells.locked (x + 1) y = true
-    · rw [if_pos hg]
-      have : nlb = true := by rw [← hnlb, hg.1, hg.2.2]; rfl
-      left; rw [cellTextG_of_guard _ _ _ _ _ _ _ ⟨this, hg.2.1⟩]
-    · rw [if_neg hg]
-      have hn : ¬ (nlb = true ∧ obsWidth c.rw cm > 1) := by
-        intro h; apply hg
-        have h1 := h.1; rw [← hnlb, Bool.and_eq_true] at h1
-        exact ⟨h1.1, h.2, h1.2⟩
-      rw [cellTextG_of_not _ _ _ _ _ _ _ hn]
-      simp only [Scr.cellText]
-      have h1 : ¬ obsWidth c.rw cm < 1 := by omega
-      simp only [h1, if_false]
-      split
-      · right; simp only; omega
-      · left; rfl
-  -- with the guard compiled in, a two-column text is only produced when the next column is not locked
-  have hguard : c.guardLocked = true → (Scr.cellTextG c s.w x (obsMain c.rw cm) comb (obsWidth c.rw cm) nlb).2 > 1 →
-      s.cells.locked (x + 1) y = false := by
-    intro hg hw
-    cases hl : s.cells.locked (x + 1) y
-    · rfl
-    · have : nlb = true := by rw [← hnlb, hg, hl]; rfl
-      rw [this, cellTextG_true_width] at hw; omega
-  -- the guarded blank: what the invariant remembers
-  have hblank : nlb = true → obsWidth c.rw cm > 1 → c.guardLocked = true ∧ 0 < cwd ∧ s.cells.locked (x + 1) y = true := by
-    intro h1 h2
-    rw [← hnlb, Bool.and_eq_true] at h1
-    refine ⟨h1.1, ?_, h1.2⟩
-    have hz : ¬ (c.rw cm = 0 ∨ cm < 32) := by intro h; simp only [obsWidth, if_pos h] at h2; omega
-    simp only [obsWidth, if_neg hz] at h2
-    rcases hwokxy with h | h
-    · omega
-    · rw [h.2, hrw.space] at h2; omega
-  generalize htx : Scr.cellTextG c s.w x (obsMain c.rw cm) comb (obsWidth c.rw cm) nlb = tx at *
-  generalize hstyle : resolveStyle s.style cst = style at *
-  have hstv : style ≠ styleInvalid := by
-    rw [← hstyle]; apply resolveStyle_valid _ _ inv.valid.1
-    have := inv.valid.2 x y; rw [hcst] at this; exact this
-  -- explicit result of drawCell
-  have hdp := Scr.drawCellPlain_dirty c s x y hd
-  simp only [Scr.txAt, hgc, hnlb, htx, hstyle] at hdp
-  -- the terminal just before the glyph is printed
-  have hterm : t.applyAll ((if s.cy ≠ y ∨ s.cx ≠ x then [Cmd.goto x y] else []) ++
-      ((if style ≠ s.curstyle then [Cmd.setPen style] else []) ++ [Cmd.put tx.1 tx.2])) =
-      ({ t with cur := some (x, y), pen := some style } : ATerm).putAt x y tx.1 tx.2 style := by
-    have happ : ∀ (t1 : ATerm) (l1 l2 : List Cmd), t1.applyAll (l1 ++ l2) = (t1.applyAll l1).applyAll l2 := by
-      intro t1 l1 l2; simp [ATerm.applyAll, List.foldl_append]
-    have hcur : (t.applyAll (if s.cy ≠ y ∨ s.cx ≠ x then [Cmd.goto x y] else [])) = { t with cur := some (x, y) } := by
-      by_cases hg : s.cy ≠ y ∨ s.cx ≠ x
-      · rw [if_pos hg]
-        show t.apply (Cmd.goto x y) = _
-        simp only [ATerm.apply, ATerm.clampX, ATerm.clampY]
-        have h1 : ¬ x < 0 := by omega
-        have h2 : ¬ x ≥ t.w := by omega
-        have h3 : ¬ y < 0 := by omega
-        have h4 : ¬ y ≥ t.h := by omega
-        simp only [h1, h2, h3, h4, if_false]
-      · have hx : s.cx = x := by
-          by_cases h : s.cx = x
-          · exact h
-          · exact absurd (Or.inr h) hg
-        have hy : s.cy = y := by
-          by_cases h : s.cy = y
-          · exact h
-          · exact absurd (Or.inl h) hg
-        have := inv.kcur (by rw [hx, hy]; exact hr)
-        rw [hx, hy] at this
-        rw [if_neg hg]
-        show t = _
-        cases t; simp_all
-    have hpen : (({ t with cur := some (x, y) } : ATerm).applyAll (if style ≠ s.curstyle then [Cmd.setPen style] else [])) =
-        { t with cur := some (x, y), pen := some style } := by
-      by_cases hp : style ≠ s.curstyle
-      · rw [if_pos hp]; rfl
-      · have he : style = s.curstyle := by
-          by_cases h : style = s.curstyle
-          · exact h
-          · exact absurd h hp
-        have := inv.kpen (by rw [← he]; exact hstv)
-        rw [← he] at this
-        rw [if_neg hp]
-        show ({ t with cur := some (x, y) } : ATerm) = _
-        cases t; simp_all
-    rw [happ, happ, hcur, hpen]
-    show ({ t with cur := some (x, y), pen := some style } : ATerm).apply (Cmd.put tx.1 tx.2) = _
-    have hig : ({ t with cur := some (x, y), pen := some style } : ATerm).inGrid x y := by
-      simp only [ATerm.inGrid]; omega
-    simp only [ATerm.apply, hig, if_true]
-  -- name the terminal before the print
-  generalize ht0 : ({ t with cur := some (x, y), pen := some style } : ATerm) = t0 at hterm
-  have ht0g : ∀ i j, t0.grid i j = t.grid i j := by intro i j; rw [← ht0]
-  have ht0w : t0.writes = t.writes := by rw [← ht0]
-  have ht0cov : t0.covered = t.covered := by rw [← ht0]
-  have ht0c : t0.chaos = t.chaos := by rw [← ht0]
-  have ht0v : t0.visible = t.visible ∧ t0.shape = t.shape := by rw [← ht0]; exact ⟨rfl, rfl⟩
-  have ht0d : t0.w = t.w ∧ t0.h = t.h := by rw [← ht0]; exact ⟨rfl, rfl⟩
-  -- facts about the printed terminal, phrased on the original grid
-  have hgrid : ∀ i j, (t0.putAt x y tx.1 tx.2 style).grid i j =
-      if i = x + 1 ∧ j = y ∧ tx.2 > 1 then .cont
-      else if i = x ∧ j = y then .shown tx.1 (decide (tx.2 > 1)) style
-      else if i = x + 2 ∧ j = y ∧ tx.2 > 1 ∧ t.grid (x + 2) y = .cont then .garbage
-      else if i = x + 1 ∧ j = y ∧ tx.2 ≤ 1 ∧ t.grid (x + 1) y = .cont then .garbage
-      else if i = x - 1 ∧ j = y ∧ t.grid x y = .cont then .garbage
-      else t.grid i j := by
-    intro i j; rw [ATerm.putAt_grid]; simp only [ht0g]
-  -- the cell left of x, if clean and unlocked, is narrow on the terminal, hence (x,y) is not a continuation of it
-  have hq : ∀ (hx1 : 1 ≤ x), (s.cells.cells (x - 1) y).lock = false → (s.cells.cells (x - 1) y).lastMain ≠ 0 →
-      t.grid x y ≠ .cont := by
-    intro hx1 hl hm hcont
-    obtain ⟨b, st, hwf⟩ := inv.wf x y hr hcont
-    exact inv.q hx1 hxy.2.1 hlock hl hm b st hwf
-  -- new last of the painted cell shows exactly what was printed
-  have hshown : shownOfG c s.w x (if cm = 0 then 32 else cm) comb style nlb = .shown tx.1 (decide (tx.2 > 1)) style := by
-    have := obsMain_markClean hrw cm
-    simp only [shownOfG, this.1, this.2, htx]
-  have hstyle1 : cst ≠ {} → style = cst := by
-    intro h; rw [← hstyle]; simp [resolveStyle, h]
-  have hstyle2 : cst = {} → ∀ d', d = some d' → style = d' := by
-    intro h d' hd'; rw [← hstyle]; simp only [resolveStyle, h, if_true]; exact (inv.dcompat d' hd').symm
-  -- the common part of the new buffer: (x,y) marked clean
-  have hc1 : ∀ i j, (s.cells.setDirty x y false).cells i j =
-      if i = x ∧ j = y then (s.cells.cells i j).markClean else s.cells.cells i j := by
-    intro i j; rw [setDirty_false_cells]; simp [hr]
-  have hwok1 : ∀ i j, WOk c.rw ((s.cells.setDirty x y false).cells i j) := by
-    intro i j; rw [hc1]; split
-    · exact wok_markClean hrw _ (inv.wok i j)
-    · exact inv.wok i j
-  have hgc1 : ∀ i j, (s.cells.setDirty x y false).getContent i j = s.cells.getContent i j :=
-    getContent_setDirty hrw s.cells x y false inv.wok
-  have hwd12 : tx.2 = 1 ∨ tx.2 = 2 := htxw
-  -- generic re-establishment of the invariant, given the closed form of the new cells
-  have key : ∀ (cells' : Buf) (cx' : Int),
-      (cells'.w = s.cells.w ∧ cells'.h = s.cells.h) →
-      (∀ i j, cells'.cells i j =
-        if i = x ∧ j = y then (s.cells.cells i j).markClean
-        else if i = x + 1 ∧ j = y ∧ tx.2 > 1 ∧ x + 1 < s.w then (s.cells.cells i j).markDirty
-        else s.cells.cells i j) →
-      (∀ i j, cells'.getContent i j = s.cells.getContent i j) →
-      (cx' = if tx.2 > 1 then -1 else x + tx.2) →
-      PassInv c d { s with curstyle := style, cx := cx', cy := y, cells := cells' }
-        (t0.putAt x y tx.1 tx.2 style) (x + tx.2) y := by
-    intro cells' cx' hdims hcells hgcs hcx
-    have hir : ∀ i j, cells'.inRange i j ↔ s.cells.inRange i j := by
-      intro i j; simp only [inRange_iff, hdims.1, hdims.2]
-    have hlks : ∀ i j, (cells'.cells i j).lock = (s.cells.cells i j).lock := by
-      intro i j; rw [hcells]; split
-      · simp [Cell.markClean]
-      · split <;> simp
-    have hlk : ∀ i j, cells'.locked i j = s.cells.locked i j := locked_congr _ _ hdims.1 hdims.2 hlks
-    have hwds : ∀ i j, (cells'.cells i j).width = (s.cells.cells i j).width := by
-      intro i j; rw [hcells]; split
-      · simp [Cell.markClean]
-      · split <;> simp [Cell.markDirty]
-    -- a kept clean cell shows on the new terminal what it showed before
-    have hkeepgrid : ∀ i j, s.cells.inRange i j → (s.cells.cells i j).lock = false → (s.cells.cells i j).lastMain ≠ 0 →
-        ¬ (i = x ∧ j = y) → ¬ (i = x + 1 ∧ j = y ∧ tx.2 > 1 ∧ x + 1 < s.w) →
-        (t0.putAt x y tx.1 tx.2 style).grid i j = t.grid i j := by
-      intro i j hrij' hl hm h1 h2
-      rw [hgrid]
-      have hi : 0 ≤ i ∧ i < s.w ∧ 0 ≤ j ∧ j < s.h := by simp only [inRange_iff] at hrij'; omega
-      have n1 : ¬ (i = x + 1 ∧ j = y ∧ tx.2 > 1) := by
-        intro h; exact h2 ⟨h.1, h.2.1, h.2.2, by omega⟩
-      have n3 : ¬ (i = x + 2 ∧ j = y ∧ tx.2 > 1 ∧ t.grid (x + 2) y = .cont) := by
-        intro h
-        rcases inv.g2 i j hrij' (by rw [h.1, h.2.1]; exact h.2.2.2) with h' | h'
-        · rw [hl] at h'; exact absurd h' (by decide)
-        · exact hm h'
-      have n4 : ¬ (i = x + 1 ∧ j = y ∧ tx.2 ≤ 1 ∧ t.grid (x + 1) y = .cont) := by
-        intro h
-        rcases inv.g2 i j hrij' (by rw [h.1, h.2.1]; exact h.2.2.2) with h' | h'
-        · rw [hl] at h'; exact absurd h' (by decide)
-        · exact hm h'
-      have n5 : ¬ (i = x - 1 ∧ j = y ∧ t.grid x y = .cont) := by
-        intro h
-        have hl' := hl; have hm' := hm
-        rw [h.1, h.2.1] at hl' hm'
-        exact hq (by omega) hl' hm' h.2.2
-      simp only [n1, h1, n3, n4, n5, if_false]
-    refine { tw := ?_, th := ?_, cw := ?_, ch := ?_, wok := ?_, valid := ?_, g1 := ?_, g2 := ?_, wf := ?_, g3 := ?_,
-             kcur := ?_, kpen := ?_, q := ?_, dcompat := inv.dcompat }
-    · simp [ht0d.1, htw]
-    · simp [ht0d.2, hth]
-    · simp [hdims.1, hcw]
-    · simp [hdims.2, hch]
-    · intro i j; simp only [hcells]; split
-      · exact wok_markClean hrw _ (inv.wok i j)
-      · split
-        · exact wok_markDirty _ (inv.wok i j)
-        · exact inv.wok i j
-    · refine ⟨inv.valid.1, ?_⟩
-      intro i j; simp only [hcells]; split
-      · simpa using inv.valid.2 i j
-      · split
-        · simpa using inv.valid.2 i j
-        · exact inv.valid.2 i j
-    · -- g1
-      intro i j hrij hl hm
-      have hrij' := (hir i j).1 hrij
-      simp only at hrij hl hm ⊢
-      by_cases h1 : i = x ∧ j = y
-      · obtain ⟨rfl, rfl⟩ := h1
-        have hcxy := hcells i j
-        rw [if_pos ⟨rfl, rfl⟩] at hcxy
-        rw [hcxy]
-        simp only [Cell.markClean_lastMain, Cell.markClean_lastComb, Cell.markClean_lastStyle, hcm, hcomb, hcst]
-        refine ⟨style, nlb, ?_, hstyle1, hstyle2, ?_⟩
-        · rw [hgrid, hshown]
-          have : ¬ (i = i + 1 ∧ j = j ∧ tx.2 > 1) := by omega
-          rw [if_neg this, if_pos ⟨rfl, rfl⟩]
-        · intro hn hwide
-          rw [(obsMain_markClean hrw cm).2] at hwide
-          obtain ⟨b1, b2, b3⟩ := hblank hn hwide
-          refine ⟨b1, ?_, Or.inl ?_⟩
-          · rw [hwds, hcwd]; exact b2
-          · rw [hlk]; exact b3
-      · have hce : cells'.cells i j = if i = x + 1 ∧ j = y ∧ tx.2 > 1 ∧ x + 1 < s.w then (s.cells.cells i j).markDirty
-            else s.cells.cells i j := by rw [hcells, if_neg h1]
-        by_cases h2 : i = x + 1 ∧ j = y ∧ tx.2 > 1 ∧ x + 1 < s.w
-        · rw [hce, if_pos h2] at hm; simp at hm
-        · rw [if_neg h2] at hce
-          rw [hce] at hl hm ⊢
-          obtain ⟨st', nl, hg, hs1, hs2, hb⟩ := inv.g1 i j hrij' hl hm
-          refine ⟨st', nl, ?_, hs1, hs2, fun a1 a2 => ⟨(hb a1 a2).1, (hb a1 a2).2.congr (hwds i j) (hlk _ _) (hgcs i j)⟩⟩
-          rw [← hg]; exact hkeepgrid i j hrij' hl hm h1 h2
-    · -- g2
-      intro i j hrij hcont
-      have hrij' := (hir i j).1 hrij
-      have hi : 0 ≤ i ∧ i < s.w ∧ 0 ≤ j ∧ j < s.h := by simp only [inRange_iff] at hrij'; omega
-      rw [hgrid] at hcont
-      simp only [hcells]
-      by_cases c1 : i = x + 1 ∧ j = y ∧ tx.2 > 1
-      · have h1 : ¬ (i = x ∧ j = y) := by omega
-        have h2 : i = x + 1 ∧ j = y ∧ tx.2 > 1 ∧ x + 1 < s.w := ⟨c1.1, c1.2.1, c1.2.2, by omega⟩
-        rw [if_neg h1, if_pos h2]; right; simp
-      · rw [if_neg c1] at hcont
-        by_cases h1 : i = x ∧ j = y
-        · rw [if_pos h1] at hcont; exact absurd hcont (by simp)
-        · rw [if_neg h1] at hcont ⊢
-          have h2 : ¬ (i = x + 1 ∧ j = y ∧ tx.2 > 1 ∧ x + 1 < s.w) := fun h => c1 ⟨h.1, h.2.1, h.2.2.1⟩
-          rw [if_neg h2]
-          split at hcont
-          · exact absurd hcont (by simp)
-          · split at hcont
-            · exact absurd hcont (by simp)
-            · split at hcont
-              · exact absurd hcont (by simp)
-              · exact inv.g2 i j hrij' hcont
-    · -- wf
-      intro i j hrij hcont
-      have hrij' := (hir i j).1 hrij
-      rw [hgrid] at hcont
-      by_cases c1 : i = x + 1 ∧ j = y ∧ tx.2 > 1
-      · refine ⟨tx.1, style, ?_⟩
-        rw [hgrid]
-        have e : i - 1 = x := by omega
-        have n1 : ¬ (i - 1 = x + 1 ∧ j = y ∧ tx.2 > 1) := by omega
-        rw [if_neg n1, if_pos ⟨e, c1.2.1⟩]; simp [c1.2.2]
-      · rw [if_neg c1] at hcont
-        by_cases h1 : i = x ∧ j = y
-        · rw [if_pos h1] at hcont; exact absurd hcont (by simp)
-        · rw [if_neg h1] at hcont
-          by_cases c3 : i = x + 2 ∧ j = y ∧ tx.2 > 1 ∧ t.grid (x + 2) y = .cont
-          · rw [if_pos c3] at hcont; exact absurd hcont (by simp)
-          · rw [if_neg c3] at hcont
-            by_cases c4 : i = x + 1 ∧ j = y ∧ tx.2 ≤ 1 ∧ t.grid (x + 1) y = .cont
-            · rw [if_pos c4] at hcont; exact absurd hcont (by simp)
-            · rw [if_neg c4] at hcont
-              by_cases c5 : i = x - 1 ∧ j = y ∧ t.grid x y = .cont
-              · rw [if_pos c5] at hcont; exact absurd hcont (by simp)
-              · rw [if_neg c5] at hcont
-                obtain ⟨b, st, hb⟩ := inv.wf i j hrij' hcont
-                refine ⟨b, st, ?_⟩
-                rw [hgrid, ← hb]
-                have m1 : ¬ (i - 1 = x + 1 ∧ j = y ∧ tx.2 > 1) := by
-                  intro h; apply c3; refine ⟨by omega, h.2.1, h.2.2, ?_⟩
-                  have : i = x + 2 := by omega
-                  rw [← this, ← h.2.1]; exact hcont
-                have m2 : ¬ (i - 1 = x ∧ j = y) := by
-                  intro h
-                  have hi : i = x + 1 := by omega
-                  by_cases hw : tx.2 > 1
-                  · exact c1 ⟨hi, h.2, hw⟩
-                  · apply c4; refine ⟨hi, h.2, by omega, ?_⟩
-                    rw [← hi, ← h.2]; exact hcont
-                have m3 : ¬ (i - 1 = x + 2 ∧ j = y ∧ tx.2 > 1 ∧ t.grid (x + 2) y = .cont) := by
-                  intro h; rw [h.1, h.2.1] at hb; rw [hb] at h; exact absurd h.2.2.2 (by simp)
-                have m4 : ¬ (i - 1 = x + 1 ∧ j = y ∧ tx.2 ≤ 1 ∧ t.grid (x + 1) y = .cont) := by
-                  intro h; rw [h.1, h.2.1] at hb; rw [hb] at h; exact absurd h.2.2.2 (by simp)
-                have m5 : ¬ (i - 1 = x - 1 ∧ j = y ∧ t.grid x y = .cont) := by
-                  intro h; exact h1 ⟨by omega, h.2.1⟩
-                simp only [m1, m2, m3, m4, m5, if_false]
-    · -- g3
-      intro i j hrij hl hm b st hsh hlt
-      have hrij' := (hir i j).1 hrij
-      have hi : 0 ≤ i ∧ i < s.w ∧ 0 ≤ j ∧ j < s.h := by simp only [inRange_iff] at hrij'; omega
-      simp only at hrij hl hm hsh hlt ⊢
-      by_cases h1 : i = x ∧ j = y
-      · obtain ⟨rfl, rfl⟩ := h1
-        rw [hgrid] at hsh
-        have n0 : ¬ (i = i + 1 ∧ j = j ∧ tx.2 > 1) := by omega
-        rw [if_neg n0, if_pos ⟨rfl, rfl⟩] at hsh
-        injection hsh with _ hwd _
-        have hwd' : tx.2 > 1 := by simpa using hwd
-        rw [hgrid, if_pos ⟨rfl, rfl, hwd'⟩]
-      · have hce : cells'.cells i j = if i = x + 1 ∧ j = y ∧ tx.2 > 1 ∧ x + 1 < s.w then (s.cells.cells i j).markDirty
-            else s.cells.cells i j := by rw [hcells, if_neg h1]
-        by_cases h2 : i = x + 1 ∧ j = y ∧ tx.2 > 1 ∧ x + 1 < s.w
-        · rw [hce, if_pos h2] at hm; simp at hm
-        · rw [if_neg h2] at hce
-          rw [hce] at hl hm
-          rw [hkeepgrid i j hrij' hl hm h1 h2] at hsh
-          have hold := inv.g3 i j hrij' hl hm b st hsh hlt
-          rw [hgrid]
-          by_cases c1 : i + 1 = x + 1 ∧ j = y ∧ tx.2 > 1
-          · rw [if_pos c1]
-          · rw [if_neg c1]
-            have n2 : ¬ (i + 1 = x ∧ j = y) := by
-              intro h
-              have e : i = x - 1 := by omega
-              have hl' := hl; have hm' := hm; have hs' := hsh
-              rw [e, h.2] at hl' hm' hs'
-              exact inv.q (by omega) hxy.2.1 hlock hl' hm' b st hs'
-            have n3 : ¬ (i + 1 = x + 2 ∧ j = y ∧ tx.2 > 1 ∧ t.grid (x + 2) y = .cont) := by
-              intro h; exact h2 ⟨by omega, h.2.1, h.2.2.1, by omega⟩
-            have n4 : ¬ (i + 1 = x + 1 ∧ j = y ∧ tx.2 ≤ 1 ∧ t.grid (x + 1) y = .cont) := by
-              intro h; exact h1 ⟨by omega, h.2.1⟩
-            have n5 : ¬ (i + 1 = x - 1 ∧ j = y ∧ t.grid x y = .cont) := by
-              intro h
-              obtain ⟨b', st'', hb⟩ := inv.wf x y hr h.2.2
-              have e : i + 1 = x - 1 := h.1
-              rw [e, h.2.1] at hold
-              rw [hold] at hb; exact absurd hb (by simp)
-            simp only [n2, n3, n4, n5, if_false]; exact hold
-    · -- kcur
-      intro hcr
-      simp only at hcr ⊢
-      rw [ATerm.putAt_cur, hcx]
-      by_cases hw : tx.2 > 1
-      · exfalso; rw [hcx, if_pos hw] at hcr
-        have := (hir _ _).1 hcr; simp only [inRange_iff] at this; omega
-      · rw [if_neg hw]
-    · intro _; simp only; rw [ATerm.putAt_pen, ← ht0]
-    · -- q at x + tx.2
-      intro h1 h2 _ hl hm b st hsh
-      simp only at h1 h2 hl hm hsh
-      rcases hwd12 with hw | hw
-      · have e : x + tx.2 - 1 = x := by omega
-        rw [e, hgrid] at hsh
-        have n0 : ¬ (x = x + 1 ∧ y = y ∧ tx.2 > 1) := by omega
-        rw [if_neg n0, if_pos ⟨rfl, rfl⟩] at hsh
-        injection hsh with _ hwd _
-        have : tx.2 > 1 := by simpa using hwd
-        omega
-      · exfalso
-        have e : x + tx.2 - 1 = x + 1 := by omega
-        have n1 : ¬ (x + 1 = x ∧ y = y) := by omega
-        have h2' : x + 1 = x + 1 ∧ y = y ∧ tx.2 > 1 ∧ x + 1 < s.w := ⟨rfl, rfl, by omega, by omega⟩
-        have hc := hcells (x + 1) y
-        rw [if_neg n1, if_pos h2'] at hc
-        apply hm; rw [e, hc]; rfl
-  -- the cells this payload occupies
-  have hcov : ∃ cs, (t0.putAt x y tx.1 tx.2 style).covered = cs ++ t.covered ∧
-      (c.guardLocked = true → ∀ p ∈ cs, s.cells.locked p.1 p.2 = false) := by
-    rw [ATerm.putAt_covered, ht0cov]
-    by_cases hw : tx.2 > 1
-    · rw [if_pos hw]
-      refine ⟨[(x + 1, y), (x, y)], rfl, ?_⟩
-      intro hg p hp
-      simp only [List.mem_cons, List.mem_nil_iff, or_false] at hp
-      rcases hp with rfl | rfl
-      · exact hguard hg hw
-      · exact dirty_unlocked _ _ _ hd
-    · rw [if_neg hw]
-      refine ⟨[(x, y)], rfl, ?_⟩
-      intro _ p hp
-      simp only [List.mem_singleton] at hp; subst hp
-      exact dirty_unlocked _ _ _ hd
-  -- assemble, according to whether the right neighbour gets marked dirty
-  by_cases hwide : tx.2 > 1 ∧ x + 1 < s.w
-  · have hr1 : (s.cells.setDirty x y false).inRange (x + 1) y := by
-      simp only [inRange_iff, setDirty_w, setDirty_h] at hr ⊢; omega
-    have hv : s.visit c x y =
-        ({ s with curstyle := style, cx := if tx.2 > 1 then -1 else x + tx.2, cy := y,
-                  cells := (s.cells.setDirty x y false).setDirty (x + 1) y true },
-         (if s.cy ≠ y ∨ s.cx ≠ x then [Cmd.goto x y] else []) ++
-           ((if style ≠ s.curstyle then [Cmd.setPen style] else []) ++ [Cmd.put tx.1 tx.2]), tx.2) := by
-      simp only [Scr.visit, hdc, hdp, hwide, and_self, if_true]
-    have hcells : ∀ i j, ((s.cells.setDirty x y false).setDirty (x + 1) y true).cells i j =
-        if i = x ∧ j = y then (s.cells.cells i j).markClean
-        else if i = x + 1 ∧ j = y ∧ tx.2 > 1 ∧ x + 1 < s.w then (s.cells.cells i j).markDirty
-        else s.cells.cells i j := by
-      intro i j
-      rw [setDirty_true_cells, hc1]
-      by_cases h1 : i = x ∧ j = y
-      · have n : ¬ (i = x + 1 ∧ j = y ∧ (s.cells.setDirty x y false).inRange (x + 1) y) := by omega
-        simp only [if_neg n, if_pos h1]
-      · by_cases h2 : i = x + 1 ∧ j = y
-        · have p1 : i = x + 1 ∧ j = y ∧ (s.cells.setDirty x y false).inRange (x + 1) y := ⟨h2.1, h2.2, hr1⟩
-          have p2 : i = x + 1 ∧ j = y ∧ tx.2 > 1 ∧ x + 1 < s.w := ⟨h2.1, h2.2, hwide.1, hwide.2⟩
-          simp only [if_pos p1, if_neg h1, if_pos p2]
-        · have n1 : ¬ (i = x + 1 ∧ j = y ∧ (s.cells.setDirty x y false).inRange (x + 1) y) := fun h => h2 ⟨h.1, h.2.1⟩
-          have n2 : ¬ (i = x + 1 ∧ j = y ∧ tx.2 > 1 ∧ x + 1 < s.w) := fun h => h2 ⟨h.1, h.2.1⟩
-          simp only [if_neg n1, if_neg h1, if_neg n2]
-    have hgcs : ∀ i j, ((s.cells.setDirty x y false).setDirty (x + 1) y true).getContent i j = s.cells.getContent i j := by
-      intro i j; rw [getContent_setDirty hrw _ (x + 1) y true hwok1 i j, hgc1]
-    rw [hv]; simp only; rw [hterm]
-    have hinv := key _ _ (by simp) hcells hgcs rfl
-    refine { inv := hinv, wd_pos := by omega, wd_eq := hwdeq, gc_same := hgcs, lock_same := ?_, other_same := ?_, done := ?_,
-             w_same := rfl, h_same := rfl, style_same := rfl, cursor_same := ⟨rfl, rfl, rfl, rfl⟩, flags_same := ⟨rfl, rfl⟩,
-             writes := by simp [hd, ht0w], vis_same := by simp [ht0v], covers := hcov }
-    · intro i j; simp only [hcells]; split
-      · simp [Cell.markClean]
-      · split <;> simp
-    · intro i j hne; simp only [hcells]
-      have n1 : ¬ (i = x ∧ j = y) := by omega
-      have n2 : ¬ (i = x + 1 ∧ j = y ∧ tx.2 > 1 ∧ x + 1 < s.w) := by omega
-      rw [if_neg n1, if_neg n2]
-    · intro _; simp only [hcells, and_self, if_true]
-      exact ⟨Cell.markClean_lastMain_ne _, by simp⟩
-  · have hv : s.visit c x y =
-        ({ s with curstyle := style, cx := if tx.2 > 1 then -1 else x + tx.2, cy := y,
-                  cells := s.cells.setDirty x y false },
-         (if s.cy ≠ y ∨ s.cx ≠ x then [Cmd.goto x y] else []) ++
-           ((if style ≠ s.curstyle then [Cmd.setPen style] else []) ++ [Cmd.put tx.1 tx.2]), tx.2) := by
-      simp only [Scr.visit, hdc, hdp, hwide, if_false]
-    have hcells : ∀ i j, (s.cells.setDirty x y false).cells i j =
-        if i = x ∧ j = y then (s.cells.cells i j).markClean
-        else if i = x + 1 ∧ j = y ∧ tx.2 > 1 ∧ x + 1 < s.w then (s.cells.cells i j).markDirty
-        else s.cells.cells i j := by
-      intro i j; rw [hc1]
-      have n2 : ¬ (i = x + 1 ∧ j = y ∧ tx.2 > 1 ∧ x + 1 < s.w) := fun h => hwide ⟨h.2.2.1, h.2.2.2⟩
-      rw [if_neg n2]
-    rw [hv]; simp only; rw [hterm]
-    have hinv := key _ _ (by simp) hcells hgc1 rfl
-    refine { inv := hinv, wd_pos := by omega, wd_eq := hwdeq, gc_same := hgc1, lock_same := ?_, other_same := ?_, done := ?_,
-             w_same := rfl, h_same := rfl, style_same := rfl, cursor_same := ⟨rfl, rfl, rfl, rfl⟩, flags_same := ⟨rfl, rfl⟩,
-             writes := by simp [hd, ht0w], vis_same := by simp [ht0v], covers := hcov }
-    · intro i j; simp only [hc1]; split
-      · simp [Cell.markClean]
-      · rfl
-    · intro i j hne; simp only [hc1]
-      have n1 : ¬ (i = x ∧ j = y) := by omega
-      rw [if_neg n1]
-    · intro _; simp only [hc1, and_self, if_true]
-      exact ⟨Cell.markClean_lastMain_ne _, by simp⟩
-
-end Tcell
-
-namespace Tcell
-open Buf
-
-/-- one loop iteration preserves the pass invariant, whatever the cell's state -/
-theorem visit_post {c : DrawCfg} (hrw : RwOk c.rw) (hct : c.Plain) {d : Option Style} {s : Scr} {t : ATerm}
-    {x y : Int} (inv : PassInv c d s t x y) (hr : s.cells.inRange x y) :
+/-- one loop iteration preserves the pass invariant, whatever the cell's state — the bottom-right corner trick included -/
+theorem visit_post {c : DrawCfg} (hrw : RwOk c.rw) (hct : c.Walk) {d : Option Style} {s : Scr} {t : ATerm}
+    {x y : Int} (inv : PassInv c d s t x y) (hr : s.cells.inRange x y) (hcc : CornerCtx c s x y) :
     VisitPost c d s t x y (s.visit c x y).1 (t.applyAll (s.visit c x y).2.1) (s.visit c x y).2.2 := by
   cases hd : s.cells.dirty x y
   · exact visit_clean hrw hct inv hr hd
-  · exact visit_dirty hrw hct inv hr hd
+  · by_cases hcor : y = s.h - 1 ∧ x = s.w - 1 ∧ c.cornerTrick = true
+    · obtain ⟨h2, hul, gh⟩ := hcc hcor.2.2 hcor.1 (by omega)
+      exact visit_corner hrw hct inv hr hd hcor h2 hul gh
+    · exact visit_dirty hrw hct inv hr hd hcor
+
+/-- the corner-trick context is carried from one loop iteration to the next -/
+theorem cornerCtx_step {c : DrawCfg} (hrw : RwOk c.rw) {d : Option Style} {s : Scr} {t : ATerm} {x y : Int} {s' : Scr} {t' : ATerm}
+    {wd : Int} (inv : PassInv c d s t x y) (hr : s.cells.inRange x y) (hcc : CornerCtx c s x y)
+    (vp : VisitPost c d s t x y s' t' wd) : CornerCtx c s' (x + wd) y := by
+  intro hc hy hlt
+  rw [vp.h_same] at hy; rw [vp.w_same] at hlt
+  have hxy : 0 ≤ x ∧ x < s.w ∧ 0 ≤ y ∧ y < s.h := by
+    have := inv.cw; have := inv.ch; simp only [inRange_iff] at hr; omega
+  have hwd := vp.wd_pos
+  obtain ⟨h2, hul, gh⟩ := hcc hc hy (by omega)
+  have hcw : s'.cells.w = s.cells.w := by rw [vp.inv.cw, vp.w_same, inv.cw]
+  have hch : s'.cells.h = s.cells.h := by rw [vp.inv.ch, vp.h_same, inv.ch]
+  have hgc := getContent_wok hrw s.cells x y hr (inv.wok x y)
+  have hwp := obsWidth_pos hrw (s.cells.cells x y).currMain
+  have hraw : rawW s.cells x y = (s.cells.getContent x y).2.2.2 := by
+    unfold rawW; rw [hgc]; simp only; split <;> omega
+  have hstep : stepW c s.cells x y = rawW s.cells x y := by
+    rw [hraw]; unfold stepW; rw [hul (x + 1)]; simp
+  have hwdeq : wd = rawW s.cells x y := by
+    rcases vp.wd_eq with h | h
+    · rw [h, hstep]
+    · omega
+  have hraw' : rawW s'.cells x y = rawW s.cells x y := rawW_congr _ _ _ _ (vp.gc_same x y)
+  refine ⟨by rw [vp.w_same]; exact h2, ?_, ?_, ?_⟩
+  · intro i; rw [locked_congr _ _ hcw hch vp.lock_same]; exact hul i
+  · rw [hwdeq]
+    exact (gh.reach.snoc).congr (fun i => vp.gc_same i y)
+  · intro _
+    refine ⟨x, hxy.1, gh.reach.congr (fun i => vp.gc_same i y), by rw [hraw', hwdeq], ?_⟩
+    have hl : (s.cells.cells x y).lock = false := unlocked_of_locked_false _ _ _ hr (hul x)
+    obtain ⟨d1, d2⟩ := vp.done hl
+    refine ⟨d1, d2, ?_⟩
+    intro hw
+    rw [hraw'] at hw
+    exact vp.nb (by omega) (by omega)
 
 theorem drawRow_succ (c : DrawCfg) (y : Int) (fuel : Nat) (x : Int) (s : Scr) :
     Scr.drawRow c y (fuel + 1) x s =
@@ -1011,38 +164,41 @@ structure RowPost (c : DrawCfg) (d : Option Style) (s : Scr) (t : ATerm) (x0 y :
   flags_same : s'.clear = s.clear ∧ s'.fini = s.fini
   vis_same : t'.visible = t.visible ∧ t'.shape = t.shape
   /-- cells that received payload in this pass were dirty when the pass reached them, and lie in this row right of x0 -/
-  writes : ∃ ws, t'.writes = ws ++ t.writes ∧ ∀ p ∈ ws, p.2 = y ∧ x0 ≤ p.1 ∧ s.cells.dirty p.1 p.2 = true ∧
-    visitsG c s.cells y fuel x0 p.1 = true
+  writes : ∃ ws, t'.writes = ws ++ t.writes ∧ ∀ p ∈ ws,
+    (p.2 = y ∧ x0 ≤ p.1 ∧ s.cells.dirty p.1 p.2 = true ∧ visitsG c s.cells y fuel x0 p.1 = true) ∨
+    (c.cornerTrick = true ∧ y = s.h - 1 ∧ p.2 = y ∧ x0 ≤ s.w - 1 ∧ s.cells.dirty (s.w - 1) y = true ∧
+      visitsG c s.cells y fuel x0 (s.w - 1) = true ∧
+      (p.1 = s.w - 2 ∨ p.1 = Scr.coverStart s.cells y (s.w - 1).toNat 0 (s.w - 1)))
   covers : ∃ cs, t'.covered = cs ++ t.covered ∧ (c.guardLocked = true → ∀ p ∈ cs, s.cells.locked p.1 p.2 = false)
 
 theorem visitsG_self (c : DrawCfg) (b : Buf) (y : Int) (fuel : Nat) (x0 : Int) (h : x0 < b.w) :
     visitsG c b y (fuel + 1) x0 x0 = true := by
   simp [visitsG, h]
 
-theorem drawRow_post {c : DrawCfg} (hrw : RwOk c.rw) (hct : c.Plain) {d : Option Style} (y : Int) :
-    ∀ (fuel : Nat) (x : Int) (s : Scr) (t : ATerm), 0 ≤ x → 0 ≤ y → y < s.h → PassInv c d s t x y →
+theorem drawRow_post {c : DrawCfg} (hrw : RwOk c.rw) (hct : c.Walk) {d : Option Style} (y : Int) :
+    ∀ (fuel : Nat) (x : Int) (s : Scr) (t : ATerm), 0 ≤ x → 0 ≤ y → y < s.h → PassInv c d s t x y → CornerCtx c s x y →
       RowPost c d s t x y fuel (Scr.drawRow c y fuel x s).1 (t.applyAll (Scr.drawRow c y fuel x s).2) := by
   intro fuel
   induction fuel with
   | zero =>
-    intro x s t _ _ _ inv
+    intro x s t _ _ _ inv _
     exact { sync := inv.toSyncInv, kcur := inv.kcur, kpen := inv.kpen, gc_same := fun _ _ => rfl, lock_same := fun _ _ => rfl,
             other_same := fun _ _ _ => rfl, done := by intro i h; simp [visitsG] at h, w_same := rfl, h_same := rfl,
             style_same := rfl, cursor_same := ⟨rfl, rfl, rfl, rfl⟩, flags_same := ⟨rfl, rfl⟩, vis_same := ⟨rfl, rfl⟩,
             writes := ⟨[], by simp [Scr.drawRow], by simp⟩,
             covers := ⟨[], by simp [Scr.drawRow], by intro _ p hp; simp at hp⟩ }
   | succ n ih =>
-    intro x s t hx0 hy0 hy1 inv
+    intro x s t hx0 hy0 hy1 inv hcc
     rw [drawRow_succ]
     by_cases hlt : x < s.w
     · rw [if_pos hlt]; simp only
       have hr : s.cells.inRange x y := by
         have := inv.cw; have := inv.ch; simp only [inRange_iff]; omega
-      have vp := visit_post hrw hct inv hr
+      have vp := visit_post hrw hct inv hr hcc
       rw [applyAll_append]
       have hy1' : y < (s.visit c x y).1.h := by rw [vp.h_same]; exact hy1
       have rp := ih (x + (s.visit c x y).2.2) (s.visit c x y).1 (t.applyAll (s.visit c x y).2.1)
-        (by have := vp.wd_pos; omega) hy0 hy1' vp.inv
+        (by have := vp.wd_pos; omega) hy0 hy1' vp.inv (cornerCtx_step hrw inv hr hcc vp)
       have hwd := vp.wd_pos
       have hcw : (s.visit c x y).1.cells.w = s.cells.w := by rw [vp.inv.cw, vp.w_same, inv.cw]
       have hch : (s.visit c x y).1.cells.h = s.cells.h := by rw [vp.inv.ch, vp.h_same, inv.ch]
@@ -1087,41 +243,47 @@ theorem drawRow_post {c : DrawCfg} (hrw : RwOk c.rw) (hct : c.Plain) {d : Option
       · obtain ⟨a1, a2⟩ := rp.vis_same; obtain ⟨b1, b2⟩ := vp.vis_same
         exact ⟨a1.trans b1, a2.trans b2⟩
       · obtain ⟨ws, hws, hmem⟩ := rp.writes
-        rw [vp.writes] at hws
+        obtain ⟨ws1, hws1, hnil, hm1⟩ := vp.writes
+        rw [hws1] at hws
         -- a cell right of the visit position is untouched by the visit, so "dirty" means the same before and after
-        have hkeep : ∀ p : Int × Int, p.2 = y → x + (s.visit c x y).2.2 ≤ p.1 →
-            (s.visit c x y).1.cells.dirty p.1 p.2 = true → s.cells.dirty p.1 p.2 = true := by
-          intro p p1 p2 p3
-          have hsame := vp.other_same p.1 p.2 (Or.inr (Or.inr p2))
+        have hkeep : ∀ i : Int, x + (s.visit c x y).2.2 ≤ i →
+            (s.visit c x y).1.cells.dirty i y = true → s.cells.dirty i y = true := by
+          intro i p2 p3
+          have hsame := vp.other_same i y (Or.inr (Or.inr p2))
           simp only [dirty, inRange_iff, hcw, hch, hsame] at p3 ⊢
           exact p3
         -- and the spec's column walk reaches it from x too
-        have hvis : ∀ p : Int × Int, x + (s.visit c x y).2.2 ≤ p.1 →
-            visitsG c (s.visit c x y).1.cells y n (x + (s.visit c x y).2.2) p.1 = true →
-            visitsG c s.cells y (n + 1) x p.1 = true := by
-          intro p p2 p4
+        have hvis : ∀ i : Int, x + (s.visit c x y).2.2 ≤ i →
+            visitsG c (s.visit c x y).1.cells y n (x + (s.visit c x y).2.2) i = true →
+            visitsG c s.cells y (n + 1) x i = true := by
+          intro i p2 p4
           rw [hwalk] at p4
           simp only [visitsG, if_pos (show x < s.cells.w by rw [inv.cw]; exact hlt)]
-          have hne : ¬ p.1 = x := by omega
+          have hne : ¬ i = x := by omega
           rw [if_neg hne]
           rcases vp.wd_eq with e | e
           · rw [← e]; exact p4
           · exfalso; rw [visitsG_ge _ _ _ _ _ _ (by rw [inv.cw]; omega)] at p4; simp at p4
-        by_cases hd : s.cells.dirty x y = true
-        · rw [if_pos hd] at hws
-          refine ⟨ws ++ [(x, y)], by rw [hws]; simp, ?_⟩
-          intro p hp
-          rcases List.mem_append.1 hp with hp | hp
-          · obtain ⟨p1, p2, p3, p4⟩ := hmem p hp
-            exact ⟨p1, by omega, hkeep p p1 p2 p3, hvis p p2 p4⟩
-          · simp only [List.mem_singleton] at hp; subst hp
+        refine ⟨ws ++ ws1, by rw [hws]; simp, ?_⟩
+        intro p hp
+        rcases List.mem_append.1 hp with hp | hp
+        · rcases hmem p hp with ⟨p1, p2, p3, p4⟩ | ⟨e1, e2, e3, e4, e5, e6, e7⟩
+          · left; exact ⟨p1, by omega, by rw [p1] at p3 ⊢; exact hkeep p.1 p2 p3, hvis p.1 p2 p4⟩
+          · right
+            rw [vp.w_same] at e4 e5 e6 e7; rw [vp.h_same] at e2
+            refine ⟨e1, e2, e3, by omega, hkeep _ e4 e5, hvis _ e4 e6, ?_⟩
+            rw [coverStart_congr s.cells _ y (fun i => vp.gc_same i y)] at e7; exact e7
+        · have hd : s.cells.dirty x y = true := by
+            cases h : s.cells.dirty x y
+            · rw [hnil h] at hp; simp at hp
+            · rfl
+          rcases hm1 p hp with h | ⟨e1, e2, e3, e4, e5⟩
+          · left; subst h
             exact ⟨rfl, by simp, hd, visitsG_self _ _ _ _ _ (by rw [inv.cw]; exact hlt)⟩
-        · have hd' : s.cells.dirty x y = false := by cases h : s.cells.dirty x y <;> simp_all
-          rw [hd'] at hws; simp only [Bool.false_eq_true, if_false] at hws
-          refine ⟨ws, hws, ?_⟩
-          intro p hp
-          obtain ⟨p1, p2, p3, p4⟩ := hmem p hp
-          exact ⟨p1, by omega, hkeep p p1 p2 p3, hvis p p2 p4⟩
+          · right
+            refine ⟨e1, e2, e4, by omega, by rw [← e3]; exact hd, ?_, ?_⟩
+            · rw [← e3]; exact visitsG_self _ _ _ _ _ (by rw [inv.cw]; exact hlt)
+            · rw [← e3]; exact e5
       · obtain ⟨cs2, h2, m2⟩ := rp.covers
         obtain ⟨cs1, h1, m1⟩ := vp.covers
         refine ⟨cs2 ++ cs1, by rw [h2, h1]; simp, ?_⟩
@@ -1159,8 +321,11 @@ structure RowsPost (c : DrawCfg) (d : Option Style) (s : Scr) (t : ATerm) (y0 : 
   cursor_same : s'.cursorx = s.cursorx ∧ s'.cursory = s.cursory ∧ s'.cursorStyle = s.cursorStyle ∧ s'.cursorColor = s.cursorColor
   flags_same : s'.clear = s.clear ∧ s'.fini = s.fini
   vis_same : t'.visible = t.visible ∧ t'.shape = t.shape
-  writes : ∃ ws, t'.writes = ws ++ t.writes ∧ ∀ p ∈ ws, y0 ≤ p.2 ∧ s.cells.dirty p.1 p.2 = true ∧
-    visitsG c s.cells p.2 s.w.toNat 0 p.1 = true
+  writes : ∃ ws, t'.writes = ws ++ t.writes ∧ ∀ p ∈ ws,
+    (y0 ≤ p.2 ∧ s.cells.dirty p.1 p.2 = true ∧ visitsG c s.cells p.2 s.w.toNat 0 p.1 = true) ∨
+    (c.cornerTrick = true ∧ p.2 = s.h - 1 ∧ y0 ≤ p.2 ∧ s.cells.dirty (s.w - 1) (s.h - 1) = true ∧
+      visitsG c s.cells (s.h - 1) s.w.toNat 0 (s.w - 1) = true ∧
+      (p.1 = s.w - 2 ∨ p.1 = Scr.coverStart s.cells (s.h - 1) (s.w - 1).toNat 0 (s.w - 1)))
   covers : ∃ cs, t'.covered = cs ++ t.covered ∧ (c.guardLocked = true → ∀ p ∈ cs, s.cells.locked p.1 p.2 = false)
 
 theorem drawRows_succ (c : DrawCfg) (fuel : Nat) (y : Int) (s : Scr) :
@@ -1171,33 +336,42 @@ theorem drawRows_succ (c : DrawCfg) (fuel : Nat) (y : Int) (s : Scr) :
       else (s, []) := by
   simp only [Scr.drawRows]
 
-theorem drawRows_post {c : DrawCfg} (hrw : RwOk c.rw) (hct : c.Plain) {d : Option Style} :
-    ∀ (fuel : Nat) (y : Int) (s : Scr) (t : ATerm), 0 ≤ y → SyncInv c d s t →
+theorem drawRows_post {c : DrawCfg} (hrw : RwOk c.rw) (hct : c.Walk) {d : Option Style} :
+    ∀ (fuel : Nat) (y : Int) (s : Scr) (t : ATerm), 0 ≤ y → SyncInv c d s t → CornerSafe c s →
       (s.cells.inRange s.cx s.cy → t.cur = some (s.cx, s.cy)) → (s.curstyle ≠ styleInvalid → t.pen = some s.curstyle) →
       (∀ d', d = some d' → d' = s.style) →
       RowsPost c d s t y fuel (Scr.drawRows c fuel y s).1 (t.applyAll (Scr.drawRows c fuel y s).2) := by
   intro fuel
   induction fuel with
   | zero =>
-    intro y s t _ inv kc kp _
+    intro y s t _ inv _ kc kp _
     exact { sync := inv, kcur := kc, kpen := kp, gc_same := fun _ _ => rfl, lock_same := fun _ _ => rfl,
             other_same := fun _ _ _ => rfl, done := by intro y' i h1 h2; omega, w_same := rfl, h_same := rfl,
             style_same := rfl, cursor_same := ⟨rfl, rfl, rfl, rfl⟩, flags_same := ⟨rfl, rfl⟩, vis_same := ⟨rfl, rfl⟩,
             writes := ⟨[], by simp [Scr.drawRows], by simp⟩,
             covers := ⟨[], by simp [Scr.drawRows], by intro _ p hp; simp at hp⟩ }
   | succ n ih =>
-    intro y s t hy0 inv kc kp dc
+    intro y s t hy0 inv hsafe kc kp dc
     rw [drawRows_succ]
     by_cases hlt : y < s.h
     · rw [if_pos hlt]; simp only
       have pinv : PassInv c d s t 0 y :=
         { toSyncInv := inv, kcur := kc, kpen := kp, q := by intro h; omega, dcompat := dc }
-      have rp := drawRow_post hrw hct y s.w.toNat 0 s t (by omega) hy0 hlt pinv
+      have hcc : CornerCtx c s 0 y := by
+        intro hc hy _
+        obtain ⟨h2, hul⟩ := hsafe hc
+        exact ⟨h2, by rw [hy]; exact hul, ⟨.refl 0, fun h => by omega⟩⟩
+      have rp := drawRow_post hrw hct y s.w.toNat 0 s t (by omega) hy0 hlt pinv hcc
       rw [applyAll_append]
-      have rs := ih (y + 1) (Scr.drawRow c y s.w.toNat 0 s).1 (t.applyAll (Scr.drawRow c y s.w.toNat 0 s).2) (by omega)
-        rp.sync rp.kcur rp.kpen (by intro d' hd'; rw [rp.style_same]; exact dc d' hd')
       have hcw : (Scr.drawRow c y s.w.toNat 0 s).1.cells.w = s.cells.w := by rw [rp.sync.cw, rp.w_same, inv.cw]
       have hch : (Scr.drawRow c y s.w.toNat 0 s).1.cells.h = s.cells.h := by rw [rp.sync.ch, rp.h_same, inv.ch]
+      have hsafe1 : CornerSafe c (Scr.drawRow c y s.w.toNat 0 s).1 := by
+        intro hc
+        obtain ⟨h2, hul⟩ := hsafe hc
+        refine ⟨by rw [rp.w_same]; exact h2, ?_⟩
+        intro i; rw [rp.h_same, locked_congr _ _ hcw hch rp.lock_same]; exact hul i
+      have rs := ih (y + 1) (Scr.drawRow c y s.w.toNat 0 s).1 (t.applyAll (Scr.drawRow c y s.w.toNat 0 s).2) (by omega)
+        rp.sync hsafe1 rp.kcur rp.kpen (by intro d' hd'; rw [rp.style_same]; exact dc d' hd')
       -- rows other than y are untouched by the pass over row y, so the walk over them is the same on both buffers
       have hrowwalk : ∀ y', y' ≠ y → ∀ f i, visitsG c (Scr.drawRow c y s.w.toNat 0 s).1.cells y' f 0 i = visitsG c s.cells y' f 0 i := by
         intro y' hy' f i
@@ -1230,16 +404,26 @@ theorem drawRows_post {c : DrawCfg} (hrw : RwOk c.rw) (hct : c.Plain) {d : Optio
       · obtain ⟨ws1, hws1, hm1⟩ := rp.writes
         obtain ⟨ws2, hws2, hm2⟩ := rs.writes
         refine ⟨ws2 ++ ws1, by rw [hws2, hws1]; simp, ?_⟩
+        have hdsame : ∀ i j, j ≠ y → (Scr.drawRow c y s.w.toNat 0 s).1.cells.dirty i j = true → s.cells.dirty i j = true := by
+          intro i j hj p2
+          have hsame := rp.other_same i j (Or.inl hj)
+          simp only [dirty, inRange_iff, hcw, hch, hsame] at p2 ⊢
+          exact p2
         intro p hp
         rcases List.mem_append.1 hp with hp | hp
-        · obtain ⟨p1, p2, p3⟩ := hm2 p hp
-          refine ⟨by omega, ?_, ?_⟩
-          · have hsame := rp.other_same p.1 p.2 (Or.inl (by omega))
-            simp only [dirty, inRange_iff, hcw, hch, hsame] at p2 ⊢
-            exact p2
-          · rw [hrowwalk p.2 (by omega), rp.w_same] at p3; exact p3
-        · obtain ⟨p1, _, p3, p4⟩ := hm1 p hp
-          exact ⟨by omega, p3, by rw [p1]; exact p4⟩
+        · rcases hm2 p hp with ⟨p1, p2, p3⟩ | ⟨e1, e2, e3, e4, e5, e6⟩
+          · left
+            refine ⟨by omega, hdsame _ _ (by omega) p2, ?_⟩
+            rw [hrowwalk p.2 (by omega), rp.w_same] at p3; exact p3
+          · right
+            rw [rp.w_same, rp.h_same] at e4 e5 e6; rw [rp.h_same] at e2
+            refine ⟨e1, e2, by omega, hdsame _ _ (by omega) e4, ?_, ?_⟩
+            · rw [hrowwalk (s.h - 1) (by omega)] at e5; exact e5
+            · rw [coverStart_congr s.cells _ (s.h - 1) (fun i => rp.gc_same i (s.h - 1))] at e6; exact e6
+        · rcases hm1 p hp with ⟨p1, _, p3, p4⟩ | ⟨e1, e2, e3, _, e5, e6, e7⟩
+          · left; exact ⟨by omega, p3, by rw [p1]; exact p4⟩
+          · right; subst e2
+            exact ⟨e1, e3, by omega, e5, e6, e7⟩
       · obtain ⟨cs2, h2, m2⟩ := rs.covers
         obtain ⟨cs1, h1, m1⟩ := rp.covers
         refine ⟨cs2 ++ cs1, by rw [h2, h1]; simp, ?_⟩
@@ -1323,7 +507,10 @@ structure DrawPost (c : DrawCfg) (d : Option Style) (s : Scr) (t : ATerm) (s' : 
     (¬ s.cells.inRange s.cursorx s.cursory →
       (c.hasHide = true → t'.visible = some false) ∧
       (c.hasHide = false → t'.cur = some (t.clampX s.cells.w, t.clampY s.cells.h)))
-  writes : ∃ ws, t'.writes = ws ++ t.writes ∧ ∀ p ∈ ws, s.cells.dirty p.1 p.2 = true ∧ visitedG c s.cells p.1 p.2 = true
+  /-- payload goes to cells that were dirty and visited — and, with the bottom-right corner trick, to the second to last
+  column of the last row and the cell covering it when the corner cell is repainted (`CornerWrite`) -/
+  writes : ∃ ws, t'.writes = ws ++ t.writes ∧ ∀ p ∈ ws,
+    (s.cells.dirty p.1 p.2 = true ∧ visitedG c s.cells p.1 p.2 = true) ∨ CornerWrite c s.cells p
   /-- with the guard compiled in, no cell a payload of this draw occupies is locked -/
   covers : ∃ cs, t'.covered = cs ++ t.covered ∧ (c.guardLocked = true → ∀ p ∈ cs, s.cells.locked p.1 p.2 = false)
 
@@ -1348,18 +535,6 @@ end Tcell
 
 namespace Tcell
 open Buf
-
-/-- the invariant only reads these components -/
-theorem SyncInv.congr {c : DrawCfg} {d : Option Style} {s s' : Scr} {t t' : ATerm} (inv : SyncInv c d s t)
-    (h1 : s'.cells = s.cells) (h2 : s'.w = s.w) (h3 : s'.h = s.h) (h4 : s'.style = s.style)
-    (h5 : t'.grid = t.grid) (h6 : t'.w = t.w) (h7 : t'.h = t.h) : SyncInv c d s' t' := by
-  refine { tw := by rw [h6, h2]; exact inv.tw, th := by rw [h7, h3]; exact inv.th, cw := by rw [h1, h2]; exact inv.cw,
-           ch := by rw [h1, h3]; exact inv.ch, wok := by rw [h1]; exact inv.wok, valid := by rw [h1, h4]; exact inv.valid,
-           g1 := ?_, g2 := ?_, wf := ?_, g3 := ?_ }
-  · rw [h1, h2, h5]; exact inv.g1
-  · rw [h1, h5]; exact inv.g2
-  · rw [h1, h5]; exact inv.wf
-  · rw [h1, h2, h5]; exact inv.g3
 
 theorem showCursor_apply (c : DrawCfg) (s : Scr) (t : ATerm) :
     (t.applyAll (s.showCursor c).2).grid = t.grid ∧ (t.applyAll (s.showCursor c).2).w = t.w ∧
@@ -1392,8 +567,9 @@ theorem draw_eq (c : DrawCfg) (s : Scr) :
       (r4.1, r1.2 ++ r2.2 ++ r3.2 ++ r4.2) := by
   simp only [Scr.draw]
 
-theorem draw_post {c : DrawCfg} (hrw : RwOk c.rw) (hct : c.Plain) {d : Option Style} {s : Scr} {t : ATerm}
-    (pre : BufOk c s t) (inv : s.clear = false → SyncInv c d s t) (hclear : s.clear = true → AllDirty s) :
+theorem draw_post {c : DrawCfg} (hrw : RwOk c.rw) (hct : c.Walk) {d : Option Style} {s : Scr} {t : ATerm}
+    (pre : BufOk c s t) (inv : s.clear = false → SyncInv c d s t) (hclear : s.clear = true → AllDirty s)
+    (hsafe : CornerSafe c s) :
     DrawPost c (if d = some s.style then d else none) s t (s.draw c).1 (t.applyAll (s.draw c).2) := by
   rw [draw_eq]; simp only
   generalize hd1 : (if d = some s.style then d else none) = d1
@@ -1463,7 +639,10 @@ theorem draw_post {c : DrawCfg} (hrw : RwOk c.rw) (hct : c.Plain) {d : Option St
           rw [k2, k3, e07, e08, g7] at hr; simp only [inRange_iff] at hr; omega
   obtain ⟨inv3, f1, f2, f3, f4, f5, f6, f7, f8, f9, f10, f11, f12, f13, f14⟩ := st2
   -- step 3: the double loop
-  have rp := drawRows_post hrw hct (d := d1) r2.1.h.toNat 0 r2.1 t2 (by omega) inv3
+  have hsafe2 : CornerSafe c r2.1 := by
+    intro hc
+    rw [f2, g8, e02, f3, g9, e03, f1, g7, e01]; exact hsafe hc
+  have rp := drawRows_post hrw hct (d := d1) r2.1.h.toNat 0 r2.1 t2 (by omega) inv3 hsafe2
     (by rw [f1, f8, f9]; exact f14)
     (by intro h; rw [f5, hcs1] at h; exact absurd rfl h)
     (by intro d' hd'; rw [f4, g10, e04]; exact dc1 d' hd')
@@ -1535,8 +714,14 @@ theorem draw_post {c : DrawCfg} (hrw : RwOk c.rw) (hct : c.Plain) {d : Option St
   · obtain ⟨ws, hws, hm⟩ := rp.writes
     refine ⟨ws, ?_, ?_⟩
     · rw [k5.1, hws, f11.1, g5.1]
-    · intro p hp; have := (hm p hp).2; rw [hcells2, hw2] at this
-      exact ⟨this.1, by simpa [visitedG, pre.cw] using this.2⟩
+    · intro p hp
+      rcases hm p hp with ⟨_, p2, p3⟩ | ⟨e1, e2, _, e4, e5, e6⟩
+      · left; rw [hcells2] at p2; rw [hcells2, hw2] at p3
+        exact ⟨p2, by simpa [visitedG, pre.cw] using p3⟩
+      · right
+        rw [hcells2, hw2, hh2] at e4 e5 e6; rw [hh2] at e2
+        refine ⟨e1, by rw [pre.ch]; exact e2, by rw [pre.cw, pre.ch]; exact e4, ?_, by rw [pre.cw, pre.ch]; exact e6⟩
+        rw [pre.cw, pre.ch]; simpa [visitedG, pre.cw] using e5
   · obtain ⟨cs, hcs, hm⟩ := rp.covers
     refine ⟨cs, ?_, ?_⟩
     · rw [k5.2, hcs, f11.2, g5.2]
